@@ -112,7 +112,10 @@ def choi_from_unitary(unitary: np.ndarray) -> np.ndarray:
 
     """
     unitary = np.array(unitary)
-    return np.outer(unitary.flatten(), np.conj(unitary.flatten()))
+    # Vectorise column-wise to match the convention of the process tomography
+    # algorithms, choi = sum_ij |i><j| (x) E(|i><j|)
+    vec = unitary.flatten(order="F")
+    return np.outer(vec, np.conj(vec))
 
 
 def _vec(mat: np.ndarray) -> np.ndarray:
